@@ -48,6 +48,9 @@ struct WorkerSlot {
     done: bool,
     killed_for_hang: bool,
     restarts: u32,
+    last_lines: Vec<String>,
+    started_at: u64,
+    last_e: Option<u64>,
 }
 
 #[derive(Clone, Debug)]
@@ -262,11 +265,88 @@ pub struct RunSummary {
     pub stats: BTreeMap<String, u64>,
     pub samples: Vec<Value>,
     pub found: Vec<Found>,
-    pub crashes: Vec<(String, u64, Option<String>, bool)>, // profile, run index, sig line, hang?
+    pub crashes: Vec<(String, u64, Option<String>, bool, u64, u64)>, // profile, run index, sig line, hang?, stride k, worker start
     pub digests: BTreeMap<(String, u64), String>,
     /// check hash -> (profile, artefact digest, check) for cross-process comparison
     pub artefacts: BTreeMap<String, (String, String, Value)>,
     pub truncated_by_deadline: bool,
+    pub late_deaths: Vec<LateDeath>,
+}
+
+#[derive(Clone, Debug)]
+pub struct LateDeath {
+    pub profile: String,
+    pub k: u64,
+    pub started_at: u64,
+    pub last_e: u64,
+    pub sig: Option<String>,
+}
+
+/// Re-run a segment of one worker's life (`start..=until` of stride `k mod w`, plus one
+/// settling run). Returns a description if the process dies, None if it completes.
+#[allow(clippy::too_many_arguments)]
+pub fn run_segment(bin: &Path, prop: &str, tier: Tier, seed: u64, k: u64, w: u64, start: u64, until: u64, hang_s: f64) -> Option<String> {
+    let mut child = Command::new(bin)
+        .arg("worker")
+        .arg(prop)
+        .arg(match tier {
+            Tier::Quick => "quick",
+            Tier::Thorough => "thorough",
+        })
+        .arg(seed.to_string())
+        .arg(k.to_string())
+        .arg(w.to_string())
+        .arg(u64::MAX.to_string())
+        .arg(start.to_string())
+        .arg("1e9")
+        .arg("--until")
+        .arg(until.to_string())
+        .stdin(Stdio::null())
+        .stdout(Stdio::piped())
+        .stderr(Stdio::null())
+        .spawn()
+        .ok()?;
+    let out = child.stdout.take().unwrap();
+    let (tx, rx) = channel();
+    std::thread::spawn(move || {
+        for l in BufReader::new(out).lines().map_while(Result::ok) {
+            if tx.send(Some(l)).is_err() {
+                return;
+            }
+        }
+        let _ = tx.send(None);
+    });
+    let mut done = false;
+    let mut sig = None;
+    let mut last_b = None;
+    let t0 = Instant::now();
+    loop {
+        match rx.recv_timeout(Duration::from_millis(200)) {
+            Ok(Some(l)) => {
+                if l == "D" {
+                    done = true;
+                } else if let Some(s) = l.strip_prefix("SIG ") {
+                    sig = Some(s.to_string());
+                } else if let Some(b) = l.strip_prefix("B ") {
+                    last_b = Some(b.to_string());
+                }
+            }
+            Ok(None) => break,
+            Err(RecvTimeoutError::Timeout) => {
+                let cpu = cpu_seconds(child.id()).unwrap_or(0.0);
+                if cpu > hang_s * 30.0 || t0.elapsed().as_secs_f64() > hang_s * 60.0 {
+                    let _ = child.kill();
+                }
+            }
+            Err(_) => break,
+        }
+    }
+    let st = child.wait().ok();
+    if done {
+        None
+    } else {
+        Some(format!("signal line {:?}, last run begun {:?}, status {:?}", sig, last_b, st))
+    }
 }
 
 /// CPU seconds (user + system) consumed so far by process `pid`, from /proc.
@@ -293,7 +373,7 @@ pub fn drive(a: &ParentArgs) -> RunSummary {
         for k in 0..*w {
             let id = slots.len();
             let child = spawn_worker(a, pi, k, 0, &tx, id);
-            slots.push(WorkerSlot { profile: pi, k, child, current: None, began: Instant::now(), began_cpu: 0.0, sig: None, done: false, killed_for_hang: false, restarts: 0 });
+            slots.push(WorkerSlot { profile: pi, k, child, current: None, began: Instant::now(), began_cpu: 0.0, sig: None, done: false, killed_for_hang: false, restarts: 0, last_lines: Vec::new(), started_at: 0, last_e: None });
         }
     }
     let mut sum = RunSummary {
@@ -309,12 +389,17 @@ pub fn drive(a: &ParentArgs) -> RunSummary {
         digests: BTreeMap::new(),
         artefacts: BTreeMap::new(),
         truncated_by_deadline: false,
+        late_deaths: Vec::new(),
     };
     let mut live = slots.len();
     while live > 0 {
         match rx.recv_timeout(Duration::from_millis(500)) {
             Ok(Msg::Line(id, l)) => {
                 let s = &mut slots[id];
+                s.last_lines.push(l.chars().take(120).collect());
+                if s.last_lines.len() > 4 {
+                    s.last_lines.remove(0);
+                }
                 if let Some(rest) = l.strip_prefix("B ") {
                     s.current = rest.trim().parse().ok();
                     s.began = Instant::now();
@@ -324,6 +409,7 @@ pub fn drive(a: &ParentArgs) -> RunSummary {
                     let i: u64 = it.next().and_then(|x| x.parse().ok()).unwrap_or(0);
                     let v: Value = it.next().and_then(|j| serde_json::from_str(j).ok()).unwrap_or(Value::Null);
                     s.current = None;
+                    s.last_e = Some(i);
                     sum.runs += 1;
                     sum.checks += v.get("checks").and_then(|x| x.as_u64()).unwrap_or(0);
                     sum.execs += v.get("execs").and_then(|x| x.as_u64()).unwrap_or(0);
@@ -401,7 +487,7 @@ pub fn drive(a: &ParentArgs) -> RunSummary {
                 if done {
                     live -= 1;
                 } else if let Some(i) = cur {
-                    sum.crashes.push((a.bins[profile].0.clone(), i, sig, hang));
+                    sum.crashes.push((a.bins[profile].0.clone(), i, sig, hang, k, slots[id].started_at));
                     if restarts > 12 {
                         eprintln!("worker {} restarted too often; giving up on its stride", id);
                         live -= 1;
@@ -409,6 +495,28 @@ pub fn drive(a: &ParentArgs) -> RunSummary {
                         let child = spawn_worker(a, profile, k, i + 1, &tx, id);
                         let s = &mut slots[id];
                         s.child = child;
+                        s.started_at = i + 1;
+                        s.last_e = None;
+                        s.current = None;
+                        s.began = Instant::now();
+                        s.began_cpu = 0.0;
+                        s.killed_for_hang = false;
+                        s.restarts += 1;
+                    }
+                } else if let Some(last) = slots[id].last_e {
+                    // Died between two runs: the damage was done earlier (e.g. machine code that
+                    // wrote outside its stack frame). Remember the segment of this worker's life
+                    // and carry on after it; triage replays the segment.
+                    sum.late_deaths.push(LateDeath { profile: a.bins[profile].0.clone(), k, started_at: slots[id].started_at, last_e: last, sig: sig.clone() });
+                    if restarts > 12 {
+                        live -= 1;
+                    } else {
+                        let w = a.bins[profile].2;
+                        let child = spawn_worker(a, profile, k, last + w, &tx, id);
+                        let s = &mut slots[id];
+                        s.child = child;
+                        s.started_at = last + w;
+                        s.last_e = None;
                         s.current = None;
                         s.began = Instant::now();
                         s.began_cpu = 0.0;
@@ -416,7 +524,8 @@ pub fn drive(a: &ParentArgs) -> RunSummary {
                         s.restarts += 1;
                     }
                 } else {
-                    harness_error(&format!("worker {} (profile {}) died outside a run", id, a.bins[profile].0));
+                    let st = slots[id].child.try_wait();
+                    harness_error(&format!("worker {} (profile {}) died before its first run; status {:?}; last lines {:?}", id, a.bins[profile].0, st, slots[id].last_lines));
                 }
             }
             Err(RecvTimeoutError::Timeout) => {}
@@ -686,7 +795,7 @@ pub fn triage(a: &ParentArgs, sum: &mut RunSummary) -> Report {
     // crashes and hangs first: find the check each died in
     let crashes = std::mem::take(&mut sum.crashes);
     let mut seen_crash = 0;
-    for (profile, i, sig, hang) in crashes {
+    for (profile, i, sig, hang, k, started_at) in crashes {
         seen_crash += 1;
         if seen_crash > 8 {
             *sum.stats.entry("crashes_not_triaged".into()).or_insert(0) += 1;
@@ -698,8 +807,66 @@ pub fn triage(a: &ParentArgs, sum: &mut RunSummary) -> Report {
                 sum.found.push(Found { profile, check, class, at: 0, detail: format!("process died in run {} (signal line: {:?})", i, sig), run_index: i });
             }
             None => {
-                harness_error(&format!("run {} of profile {} died once but completed when re-run in trace mode: not deterministic", i, profile));
+                // The run completes on its own: the damage was done by an earlier run of the same
+                // worker (e.g. machine code writing outside its frame). Replay the worker's life.
+                sum.late_deaths.push(LateDeath { profile, k, started_at, last_e: i, sig });
             }
+        }
+    }
+    // deaths between runs: find the shortest tail of the worker's life that still dies
+    let late = std::mem::take(&mut sum.late_deaths);
+    for (n, d) in late.iter().enumerate() {
+        if n >= 2 {
+            *sum.stats.entry("late_deaths_not_triaged".into()).or_insert(0) += 1;
+            continue;
+        }
+        let (bin, w) = match a.bins.iter().find(|b| b.0 == d.profile) {
+            Some(b) => (b.1.clone(), b.2),
+            None => continue,
+        };
+        let mut found: Option<(u64, String)> = None;
+        let mut span = 1u64;
+        loop {
+            let start = d.last_e.saturating_sub((span - 1) * w).max(d.started_at);
+            if let Some(how) = run_segment(&bin, &a.prop, a.tier, a.seed, d.k, w, start, d.last_e, a.hang_s) {
+                found = Some((start, how));
+                break;
+            }
+            if start == d.started_at {
+                break;
+            }
+            span *= 2;
+        }
+        match found {
+            Some((start, how)) => {
+                let replay_dir = a.verif_dir.join("replays").join(&a.prop);
+                let _ = std::fs::create_dir_all(&replay_dir);
+                let body = json!({
+                    "property": a.prop,
+                    "profile": d.profile,
+                    "class": "crash-outside-run",
+                    "detail": format!("a worker process died between two runs ({}); the damage was done in one of the runs of this segment", how),
+                    "worker_segment": {"seed": a.seed, "tier": match a.tier { Tier::Quick => "quick", Tier::Thorough => "thorough" }, "k": d.k, "w": w, "start": start, "until": d.last_e},
+                    "original_signal": d.sig,
+                });
+                let name = format!("{:016x}.json", fnv(body.to_string().as_bytes()));
+                let path = replay_dir.join(name);
+                if std::fs::write(&path, serde_json::to_string_pretty(&body).unwrap()).is_err() {
+                    harness_error("cannot write replay file");
+                }
+                if known.matches(&a.prop, &Value::Null, "crash-outside-run").is_some() {
+                    rep.known += 1;
+                    rep.lines.push(format!("KNOWN-FINDING: property={} process death between runs [replay={}]", a.prop, path.display()));
+                } else {
+                    rep.violations += 1;
+                    rep.lines.push(format!("VIOLATION property={} replay={}", a.prop, path.display()));
+                    rep.lines.push(format!("  class=crash-outside-run profile={} runs {}..={} of stride {} mod {} :: {}", d.profile, start, d.last_e, d.k, w, how));
+                }
+            }
+            None => harness_error(&format!(
+                "a worker (profile {}, stride {} mod {}) died after run {} but its whole life {}..={} completes when replayed: not deterministic",
+                d.profile, d.k, w, d.last_e, d.started_at, d.last_e
+            )),
         }
     }
     // group by (profile, signature, class); minimise the first of each group
